@@ -243,7 +243,7 @@ Qed.
 (* (3) rANS 4x8 order-0 frequency table: witnesses of the two arithmetic panics (candidate F10)
        and a non-trivial accepted table                                                        *)
 
-Definition zeros16 : list N := repeat 0 16.
+Definition zeros16 : list N := [0;0;128;0; 0;0;128;0; 0;0;128;0; 0;0;128;0; 0;0;0;0;0;0;0;0].
 
 Example rfreq_witness_sym_overflow :
   (* 0xfe f=5, 0xff (adjacent) run length 1: F[255] := 1, then sym += 1 on 255 *)
